@@ -22,6 +22,7 @@ func init() {
 			ruleRingWriters(c, r, "")
 			ruleDecoderReadErr(c, r, "")
 			ruleIO(c, r, readerCone(c), "", true)
+			ruleNewAPI(c, r, true, false)
 		},
 	})
 }
